@@ -100,7 +100,9 @@ type aSpec struct {
 	Call callSpec `json:"call"`
 }
 
-func (a aSpec) caseText() string { return a.Sig.String() + " :: " + strings.Replace(a.Call.script(), "\n", "; ", -1) }
+func (a aSpec) caseText() string {
+	return a.Sig.String() + " :: " + strings.Replace(a.Call.script(), "\n", "; ", -1)
+}
 
 // sigEnv: one environment per signature, holding the script values and the
 // manufactured function f, which records what it receives into this struct
@@ -407,7 +409,10 @@ const (
 	tFull = iota // the whole product of the script values
 	tOne         // every tuple in which at most one position lies outside the 8-value sub-pool
 	tSub         // tuples over the sub-pool only
+	tMini        // tuples over 4 values (nil, an int, a string, a list)
 )
+
+var miniVals = []string{"v_nil", "v_i", "v_sa", "v_li"}
 
 // tuples enumerates argument tuples of length k (see the modes above: with
 // tOne every value reaches every position and every position pair is covered
@@ -421,7 +426,10 @@ func tuples(k int, mode int) [][]string {
 	for _, s := range subVals {
 		inSub[s] = true
 	}
-	limit := map[int]int{tFull: k, tOne: 1, tSub: 0}[mode]
+	limit := map[int]int{tFull: k, tOne: 1, tSub: 0, tMini: 0}[mode]
+	if mode == tMini {
+		all = miniVals
+	}
 	var out [][]string
 	var rec func(prefix []string, outside int)
 	rec = func(prefix []string, outside int) {
@@ -447,6 +455,7 @@ func tuples(k int, mode int) [][]string {
 // callsFor lists every call made against one signature.
 func callsFor(sig sigSpec, fullPairs bool, tcache map[string][][]string) []callSpec {
 	n := len(sig.P)
+	// fullPairs is the thorough tier
 	modeFor := func(k int) int {
 		switch {
 		case k <= 1:
@@ -458,10 +467,10 @@ func callsFor(sig sigSpec, fullPairs bool, tcache map[string][][]string) []callS
 			return tOne
 		case k == 2:
 			return tOne
-		case k == 3 && n <= 2:
-			return tOne
+		case k == 3:
+			return tSub
 		}
-		return tSub
+		return tMini
 	}
 	tupm := func(k int, mode int) [][]string {
 		key := fmt.Sprintf("%d/%d", k, mode)
@@ -473,8 +482,11 @@ func callsFor(sig sigSpec, fullPairs bool, tcache map[string][][]string) []callS
 		return t
 	}
 	tup := func(k int) [][]string { return tupm(k, modeFor(k)) }
-	small := func(k int) [][]string { // wrong-arity probes
-		if k >= 2 {
+	small := func(k int) [][]string { // wrong-arity probes, prefixes of as-is spreads
+		switch {
+		case k >= 3:
+			return tupm(k, tMini)
+		case k == 2:
 			return tupm(k, tSub)
 		}
 		return tupm(k, tFull)
@@ -535,27 +547,12 @@ func callsFor(sig sigSpec, fullPairs bool, tcache map[string][][]string) []callS
 		}
 	}
 	// ... and every script value as it is (a non-list has no conversion to []T)
-	for _, t := range tup(nfix) {
+	for _, t := range small(nfix) {
 		for _, sv := range all {
 			out = append(out, callSpec{Args: t, Spread: "var", SVar: sv})
 		}
 	}
 	return out
-}
-
-func allSub(t []string) bool {
-	for _, a := range t {
-		ok := false
-		for _, s := range subVals {
-			if s == a {
-				ok = true
-			}
-		}
-		if !ok {
-			return false
-		}
-	}
-	return true
 }
 
 // signatures lists the manufactured signatures of a tier (without result counts).
